@@ -564,6 +564,37 @@ class Sim(object):
             self.fire_due(order)
         self.loop.advance_to(end)
 
+    def _set_opts(self, options):
+        """the options object of a `set` request in the model's terms (Core.tla SetOpts), [] when it holds anything
+        the model has no word for (the request is then outside the strict pass)"""
+        if not isinstance(options, dict) or not options:
+            return []
+        out = []
+        for key, val in options.items():
+            try:
+                if key == "numprocesses":
+                    out.append({"k": "np", "v": int(val)})
+                elif key == "graceful_timeout":
+                    out.append({"k": "G", "v": self.polls(float(val))})
+                elif key == "warmup_delay":
+                    out.append({"k": "W", "v": int(round(float(val) * 10))})
+                elif key == "stop_signal":
+                    out.append({"k": "ssig", "v": ref_signum(val)})
+                elif key == "stop_children":
+                    out.append({"k": "sch", "v": 1 if str(val).lower() in ("true", "1", "t", "y", "yes", "on") else 0})
+                elif key == "send_hup":
+                    out.append({"k": "hup", "v": 1 if val else 0})
+                elif key in ("cmd", "args", "env", "working_dir", "shell") or (key in ("max_age", "max_age_variance")
+                                                                              and int(val) == 0):
+                    out.append({"k": "act1", "v": 0})
+                elif key in ("max_retry", "retry_in", "respawn", "copy_env"):
+                    out.append({"k": "noop", "v": 0})
+                else:
+                    return []
+            except Exception:
+                return []
+        return out
+
     def request(self, cmd, props=None, mid=None, cid=None, cast=False, raw=None):
         if self.exited:
             return None                  # nobody is listening any more
@@ -612,6 +643,7 @@ class Sim(object):
              if isinstance(pr.get("options"), dict) and isinstance((pr.get("options") or {}).get(
                  "warmup_delay", 0), (int, float)) else 0,
              "addsing": bool((pr.get("options") or {}).get("singleton")) if isinstance(pr.get("options"), dict) else False}
+        q["opts"] = self._set_opts(pr.get("options")) if cmd == "set" else []
         self.rec("req", x=cidn, r=str(cmd), w=str(pr.get("name", "")), a=1 if pr.get("waiting") else 0,
                  q=q)
         self.block_counts = {}
